@@ -1,3 +1,3 @@
 From Coq Require Import Extraction ExtrOcamlBasic.
 From Nitro Require Import Base.Bytes Own.Count Own.Quaint Own.Optional Own.Env Own.Dl.
-Extraction "own_model.ml" q_init q_step q_applicable q_finish q_state_ok all_destroyed_once must_be_empty slot_is_null heap_extends count_type count_destroyed_by o_init o_step o_finish opt_read opt_bool views live_cells o_spec_step o_spec_read engaged_count view_is_value env_run env_spec_ok env_lookup env_set env_unset d_init d_step d_finish x_init x_step d_state_ok all_closed_once slot_empty slot_owner.
+Extraction "own_model.ml" q_init q_step q_applicable q_finish q_state_ok all_destroyed_once must_be_empty slot_is_null vec_must_be_null vec_is_null heap_extends count_type count_destroyed_by o_init o_step o_finish opt_read opt_bool views live_cells o_spec_step o_spec_read engaged_count view_is_value env_run env_spec_ok env_lookup env_set env_unset d_init d_step d_finish x_init x_step d_state_ok all_closed_once slot_empty slot_owner.
